@@ -234,8 +234,47 @@ Fixpoint count_ops (b : nat) (file : path) (p0 : nat) (sched : list (nat * csig)
    to its next call (or its end).  So an assignment of actor a whose last call sits at a position before the
    call that precedes actor b's read HAD RETURNED when that read began: the read must return a version at least
    as new.  (One writer per document: the completed assignments are a prefix of the version list.) *)
+(* ---- the same for job creation and len(project).  A len(project) is logged as a read of the workspace
+   directory itself (d_val = JInt count).  A job directory exists from its mkdir on; the mkdir calls are in the
+   schedule.  A count taken by a call that BEGAN after the creating mkdir had been made must include that job;
+   it cannot include a job whose mkdir comes after the last call of the len(project). *)
+Definition is_len_op (c : case_C12) (o : docop) : bool := negb (d_set o) && path_eqb (d_file o) (q_ws c).
+
+(* new job ids whose directory was created among the first n positions *)
+Fixpoint created_before (c : case_C12) (sched : list (nat * csig)) (n : nat) (acc : list str) : list str :=
+  match n, sched with
+  | S n', (_, s) :: rest =>
+      let acc' :=
+        match rev (sg_p s) with
+        | i :: wsr =>
+            if ckind_eqb (sg_kind s) SgMkdir && path_eqb (rev wsr) (q_ws c) && id_match i
+               && negb (str_mem i (job_dirs (q_pre c) (q_ws c))) && negb (str_mem i acc)
+            then i :: acc else acc
+        | [] => acc
+        end in
+      created_before c rest n' acc'
+  | _, _ => acc
+  end.
+
+Definition len_visible (c : case_C12) (b : nat) (r : docop) : bool :=
+  negb (is_len_op c r) ||
+  match d_val r with
+  | JInt z =>
+      let lo := length (job_dirs (q_pre c) (q_ws c)) in
+      let lower := match pos_of b (d_start r) (q_sched c) 0 with
+                   | Some p0 => lo + length (created_before c (q_sched c) p0 [])
+                   | None => lo
+                   end in
+      let upper := match pos_of b (d_end r) (q_sched c) 0 with
+                   | Some p1 => lo + length (created_before c (q_sched c) (S p1) [])
+                   | None => lo + length (created_before c (q_sched c) (length (q_sched c)) [])
+                   end in
+      Z.leb (Z.of_nat lower) z && Z.leb z (Z.of_nat upper)
+  | _ => false
+  end.
+
 Definition read_visible (c : case_C12) (b : nat) (r : docop) : bool :=
-  d_set r ||
+  d_set r || is_len_op c r ||
   let vs := versions_ops c (d_file r) in
   let cnt := match pos_of b (d_start r) (q_sched c) 0 with
              | Some p0 => count_ops b (d_file r) p0 (q_sched c) 0 (q_docops c)
@@ -247,7 +286,7 @@ Definition read_visible (c : case_C12) (b : nat) (r : docop) : bool :=
 Fixpoint returned_visible_from (c : case_C12) (b : nat) (opss : list (list docop)) : bool :=
   match opss with
   | [] => true
-  | ops :: rest => forallb (read_visible c b) ops && returned_visible_from c (S b) rest
+  | ops :: rest => forallb (read_visible c b) ops && forallb (len_visible c b) ops && returned_visible_from c (S b) rest
   end.
 Definition returned_visible (c : case_C12) : bool := returned_visible_from c 0 (q_docops c).
 
